@@ -53,6 +53,9 @@ def run_case(ctx, p):
         else:   # bounds that are NOT representable in the narrower float types: the reported definition must carry the very same numbers
             dxm = float(np.min(np.diff(x)))
             secs = {k: [slice(np.float32(s.start - 0.31 * dxm), np.float32(s.stop + 0.31 * dxm)) for s in v] for k, v in f.sections.items()}
+    if p.get("empty_series"):   # a reference series that is listed without any stretch is part of the definition too
+        f.ds = f.ds.assign(spare=(("time",), 21.0 + 0.0 * np.arange(f.ds.time.size)))
+        secs = {**{k: list(v) for k, v in secs.items()}, "spare": []}
     kw = case.kwargs(sections=secs)
     ctx.case(("c17", repr(sorted(p.items()))), sample={**p, "sections": {k: [(type(s.start).__name__, type(s.stop).__name__) for s in v] for k, v in secs.items()}})
     try:
@@ -143,6 +146,8 @@ def gen(ctx):
         p = calib.random_params(rng, double, quick=True, nx=int(rng.integers(20, 30)), nt=2, nta=int(rng.integers(0, 3)), nmatch=int(rng.integers(0, 3)), noise=0.005,
                                 span=float(rng.choice([40.0, 100.0, 400.0])), var_mode="float")
         p["retype"] = bool(k % 3 == 0)
+        if k % 4 in (2, 3) and k % 8 >= 4:
+            p["empty_series"] = True
         out.append(p)
     return out
 
